@@ -196,5 +196,34 @@ pub fn listed_groups(quick: bool) -> Vec<(&'static str, Vec<Case>)> {
 	}
 	groups.push(("versions-and-utf8", cases));
 
+	// 8. the CLDC `StackMap` attribute (explicit offsets, full frames): three frames whose offsets are branch targets of
+	// three jumps at the start of the method, the jumps naming the targets in every order (so that a reader that creates
+	// its labels while scanning the jumps meets the frame offsets in every order), and without any jump
+	let mut cases: Vec<Case> = Vec::new();
+	let frame_at = |k: usize| SFrame::Full {
+		locals: vec![SVType::Integer, SVType::Object(js("p/T")), SVType::Uninitialized(5), SVType::Long, SVType::Null][..2 + k].to_vec(),
+		stack: vec![SVType::Object(js("[Lp/T;")), SVType::Double, SVType::UninitializedThis, SVType::Float, SVType::Top][..k + 1].to_vec(),
+	};
+	let targets: [Idx; 3] = [4, 6, 8];
+	let mut orders = permutations(3);
+	orders.push(vec![]);
+	for (oi, order) in orders.iter().enumerate() {
+		for version in [(45u16, 3u16), (48, 0), (50, 0), (52, 0)] {
+			let mut insns: Vec<SInsn> = (0..3).map(|j| match order.get(j) {
+				Some(t) => SInsn::Branch(op::IFEQ, targets[*t]),
+				None => SInsn::Simple(op::NOP),
+			}).collect();
+			insns.extend([SInsn::Simple(op::NOP), SInsn::Simple(op::NOP), SInsn::New(js("p/T")), SInsn::Simple(op::NOP), SInsn::Simple(op::NOP), RETURN]);
+			let mut c = class_with_method("p/Cldc", insns);
+			c.version = version;
+			if let Some(code) = &mut c.methods[0].code {
+				code.frames = targets.iter().enumerate().map(|(k, t)| (*t, frame_at(k))).collect();
+			}
+			normalize(&mut c);
+			cases.push((format!("cldc-stack-map/order{oi}/version{}.{}", version.0, version.1), c, Encoding { frames_cldc: true, ..Default::default() }));
+		}
+	}
+	groups.push(("cldc-stack-map", cases));
+
 	groups
 }
